@@ -255,6 +255,49 @@ def run_case(ctx, seed, idx, tier):
                 compile(out, '<cli-output>', 'exec')
             except (SyntaxError, ValueError) as e:
                 return viol('cli_output_not_loadable_python', {'error': str(e)[:200]}, fl, mo, mi)
+        # sources that are not regular files: a named pipe, /dev/stdin
+        if rng.random() < 0.5:
+            import threading
+            fifo = os.path.join(tmp, 'pipe.prolog')
+            os.mkfifo(fifo)
+
+            def feed():
+                try:
+                    with open(fifo, 'w', encoding='utf8', newline='') as f:
+                        f.write(texts[0])
+                except OSError:
+                    pass
+            th = threading.Thread(target=feed, daemon=True)
+            th.start()
+            k = rng.randrange(16)
+            fl = [FLAGS[j] for j in range(4) if k >> j & 1]
+            mo = rng.choice(['stdout', 'file'])
+            try:
+                rc, out, err, raw = run_cli(tmp, fl, [fifo] + paths[1:], mo, 'files')
+            except subprocess.TimeoutExpired:
+                rc, out, err = None, '', 'timeout'
+            th.join(5)
+            c['cli_runs'] = c.get('cli_runs', 0) + 1
+            c['named_pipe_sources'] = c.get('named_pipe_sources', 0) + 1
+            if rc is not None:
+                want = ''.join(expected)
+                if rc != 0 or strip_comments(out) != strip_comments(want):
+                    return viol('output_differs_from_library_for_a_named_pipe_source', {'returncode': rc, 'cli_chars': len(out), 'library_chars': len(want),
+                                                                                        'stderr': err[-200:]}, fl, mo, 'fifo')
+        else:
+            k = rng.randrange(16)
+            fl = [FLAGS[j] for j in range(4) if k >> j & 1]
+            mo = rng.choice(['stdout', 'file'])
+            try:
+                rc, out, err, raw = run_cli(tmp, fl, ['/dev/stdin'] + paths[1:], mo, 'stdin', texts[0])
+                c['cli_runs'] = c.get('cli_runs', 0) + 1
+                c['dev_stdin_sources'] = c.get('dev_stdin_sources', 0) + 1
+                want = ''.join(expected)
+                if rc != 0 or strip_comments(out) != strip_comments(want):
+                    return viol('output_differs_from_library_for_dev_stdin', {'returncode': rc, 'cli_chars': len(out), 'library_chars': len(want),
+                                                                              'stderr': err[-200:]}, fl, mo, '/dev/stdin')
+            except subprocess.TimeoutExpired:
+                pass
         # a source that does not compile
         for _ in range(2):
             base = texts[0]
